@@ -354,7 +354,7 @@ def run(prop, tier):
     drv = T.build_driver()
     if drv is None:
         return 2
-    L = int(os.environ.get("VERIF_STRLEN", "7" if tier == "quick" else "9"))
+    L = int(os.environ.get("VERIF_STRLEN", "10" if tier == "quick" else "16"))  # measured: 10 -> 15 s, 13 -> 75 s, 16 -> 6 min
     inconclusive, violations = [], []
     try:
         pat = extract_regex()
